@@ -278,6 +278,7 @@ def gen_scenario(rng, plain=False):
         return ['script', sid]
 
     free, certseq = [], []           # freely ordered ops; certificate-related ops keep their relative order
+    supplied_datums, direct_scripts = [], []   # datums supplied for hash-locked inputs; Plutus scripts handed over as objects
     # --- script inputs
     for _ in range(rng.choice([0, 1, 1, 2, 2, 3, 4])):
         sid = pick_script()
@@ -328,6 +329,10 @@ def gen_scenario(rng, plain=False):
         if (plutus and not bad(0.05)) or (not plutus and bad(0.05)):
             r = new_rdm(0)
         free.append(['sinput', uid, src, dsup, r, dform])
+        if dsup is not None and dmode == 'hash+':
+            supplied_datums.append((dcbor, dform))
+        if smode == 'wit' and plutus:
+            direct_scripts.append(sid)
         if rng.random() < 0.06:                                 # the same UTxO registered a second time
             r2 = new_rdm(0) if r is not None else None
             free.append(['sinput', uid, src, dsup, r2, dform])
@@ -342,6 +347,14 @@ def gen_scenario(rng, plain=False):
     # --- bank at the change address (coin selection, collateral)
     for _ in range(rng.randint(2, 4)):
         new_utxo(False, change, rng.choice([6000000, 25000000, 80000000]))
+    # the wallet UTxO on which a script was deployed: at the change address (automatic collateral may pick it) or named as
+    # collateral explicitly; it is neither spent nor a reference input unless coin selection takes it
+    late = []
+    for _ in range(rng.choice([0, 0, 1, 1, 2])):
+        sid = rng.choice(direct_scripts) if direct_scripts and rng.random() < 0.7 else pick_script()
+        uid = new_utxo(False, change if rng.random() < 0.6 else rng.randbytes(28), rng.choice([5000000, 9000000, 40000000]), script=sid)
+        if rng.random() < 0.6:
+            late.append(['coll', uid])
     # --- mint
     # DOMAIN RESTRICTION (explicit): a policy / reward account gets at most one add_*_script call.  Two calls for the
     # same policy hand over two redeemers for ONE ledger purpose (mint, rank of the policy): the redeemer map keeps the
@@ -394,11 +407,25 @@ def gen_scenario(rng, plain=False):
         else:
             certseq.append(['addcert', dict(cred_script=False, cred=rng.randbytes(28).hex(), pool=rng.randbytes(28).hex())])
     # --- extra datum in the witness set
-    if rng.random() < 0.35:
-        od = rand_datum(rng)
-        free.append(['outdatum', od[0].hex(), od[1]])
+    # add_output(o, datum=D, add_datum_to_witness=flag): D fresh or EQUAL to a datum supplied for a spent input (the
+    # continuing output keeps its state), flag True or False (the default) — in any order relative to the other calls
+    for _ in range(rng.choice([0, 0, 1, 1, 2])):
+        od = rng.choice(supplied_datums) if supplied_datums and rng.random() < 0.6 else rand_datum(rng)
+        free.append(['outdatum', od[0].hex(), od[1], rng.random() < 0.5])
     S['native'] = [pick_script(0) for _ in range(rng.choice([0, 0, 0, 0, 1, 2]))]
     # --- random interleaving; certificate ops keep their order
+    # read-only reference inputs (an oracle / configuration UTxO the validator reads): builder.reference_inputs.add(utxo).
+    # Some carry a script the transaction does NOT use, of any language (DOMAIN: never a script that is needed — a witness
+    # script that is also resolvable by reference is an extraneous witness for the ledger)
+    for _ in range(rng.choice([0, 0, 0, 1, 1, 2])):
+        carried = None
+        if rng.random() < 0.7:                        # fresh bytes: its hash is the hash of no script the calls name
+            S['scripts'].append(dict(lang=rng.choice([1, 2, 3]), hex=rng.randbytes(rng.choice([7, 33, 70])).hex(), raw=False))
+            carried = len(S['scripts']) - 1
+        uid = new_utxo(rng.random() < 0.3, rng.randbytes(28), rng.choice([1500000, 4000000]), script=carried,
+                       datum=(['inline', rand_datum(rng)[0].hex(), 'raw'] if rng.random() < 0.3 else None))
+        late.append(['refin', uid])
+    free += late
     rng.shuffle(free)
     ops = []
     while free or certseq:
@@ -524,7 +551,11 @@ def r_op(S, op):
     if k == 'addcert':
         return f'AddCert {HX(cert_cbor(op[1]))}'
     if k == 'outdatum':
-        return f'AddOutputDatum {r_datum(op[1])}'
+        return f'AddOutputDatum{"" if len(op) < 4 or op[3] else "HashOnly"} {r_datum(op[1])}'
+    if k == 'coll':
+        return f'AddCollateral {r_utxo(S, op[1])}'
+    if k == 'refin':
+        return f'AddReferenceInput {r_utxo(S, op[1])}'
     raise ValueError(k)
 
 
@@ -591,6 +622,8 @@ def classify_impl(R):
             return ('build', 'EValue')
         if R['err'] == 'TransactionBuilderException' and 'Cannot find execution unit' in msg:
             return ('build', 'EBuilder')
+        if R['err'] == 'UTxOSelectionException' and 'All UTxO selectors failed' in msg:
+            return ('outside_early',)
         return ('outside',)
     return ('done',)
 
@@ -601,6 +634,8 @@ def r_impl(R):
         return f'(IErrOp {C.cnat(k[1])} {k[2]})'
     if k[0] == 'build':
         return f'(IErrBuild {k[1]})'
+    if k[0] == 'outside_early':
+        return 'IOutsideEarly'
     if k[0] in ('outside', 'unmodelled'):
         return 'IOutside'
     rl = C.clist([f'({N_(rid)}, {N_(tag)}, {C.cnat(ix)}, ({N_(m)}, {N_(s)}))' for rid, tag, ix, m, s in R['rl']])
